@@ -746,6 +746,9 @@ func (x Expr) set(data, value any, fun string, one bool) error {
 					}
 				}
 			} else {
+				// The expansion of prev is done. Clear the flag so a sibling of
+				// prev that shares this marker is expanded as well.
+				stack[len(stack)-1] = di &^ descentFlag
 				stack = append(stack, prev)
 			}
 		case Union:
